@@ -20,8 +20,13 @@ def check_case(rep, case, stats):
     x = case["x"]
     base = {(b["name"], b["aff"]): b for b in case["base"]}
     cache = {}
+    scale_of = {}
     for (name, aff), b in base.items():
         A = gem.affinity(name, aff, x)
+        # the unit of the affinity must not matter: MMD (and its gradient) scales with sqrt(s), Wasserstein with s
+        sc = 1.0 if A is None else (1.0, 2.0 ** -46, 2.0 ** 20)[(sum(map(sum, case["a"])) + sum(case["a"][0]) * 7 + case["a"][-1][0] * 3 + len(name) + len(aff) + sum(x)) % 3]
+        scale_of[(name, aff)] = 1.0 if A is None else (np.sqrt(sc) if name.startswith("mmd") else sc)
+        A = None if A is None else A * sc
         for label, g in gem.code_instances(name):
             try:
                 v0 = float(g(P.copy(), None if A is None else A.copy()))
@@ -54,14 +59,15 @@ def check_case(rep, case, stats):
             if not res["s"]:
                 stats["nonsmooth"] += 1
                 continue
-            expected = gem.bag_eval(res["d"])
+            expected = gem.bag_eval(res["d"]) * scale_of[(name, aff)]
+            fac = scale_of[(name, aff)]
             for label, g in gem.code_instances(name):
                 G = cache.get((name, aff, label))
                 if G is None or G.shape != P.shape:
                     continue
                 got = float(G[i, kk] - G[i, k - 1])
                 rep.case(((n, k, q), case["a"], x, name, aff, d["i"], d["k"]))
-                if not (abs(got - expected) <= 1e-7 * max(1.0, abs(expected))):
+                if not (abs(got - expected) <= 1e-7 * max(fac, abs(expected))):
                     rep.violation(
                         f"n={n} K={k} P={case['a']}/{q} x={x}: d/dt {name}[{aff}](P + t(e[{d['i']},{d['k']}]-e[{d['i']},{k}])) "
                         f"spec={expected!r} but <grad,E>={got!r} via {label}",
